@@ -7,10 +7,10 @@ import json
 from . import b2, core
 
 
-def run_b2(ctx: core.Ctx, make_jobs, mons, hidden=("clock",), log_visible=False, label="", accept=True):
+def run_b2(ctx: core.Ctx, make_jobs, mons, hidden=("clock",), log_visible=False, label="", accept=True, accept_log_size=None):
     jobs = make_jobs(ctx.rng, ctx.tier == "thorough")
     hid = [h for h in hidden if not (log_visible and h == "clock")]
-    results = b2.explore(jobs, mons, accept=hid if accept else None)
+    results = b2.explore(jobs, mons, accept=hid if accept else None, accept_log_size=accept_log_size)
     b2.close_pool()
     rejected = []
     for (spec, seed, pre, *_), r in zip(jobs, results):
@@ -26,6 +26,8 @@ def run_b2(ctx: core.Ctx, make_jobs, mons, hidden=("clock",), log_visible=False,
                           {"path": "b2", "spec": spec, "seed": seed, "preempt": pre, "choices": r.get("choice_list"), "monitor": v["monitor"], "kind": v["kind"],
                            "trace_tail": [e for e in r.get("trace", []) if e["k"] not in ("read_enter", "clock")][-80:]},
                           {"kind": v["kind"], "monitor": v["monitor"]})
+        if accept and r.get("accept", "").startswith("DRIVER-ERROR"):
+            raise RuntimeError(f"the trace acceptor failed or timed out (harness problem, not a verdict): {r['accept'][:300]} seed={seed}")
         if accept and not r.get("accept", "").startswith("ACCEPT"):
             rejected.append({"spec": spec, "seed": seed, "preempt": pre, "verdict": r.get("accept"), "rejecting_event": r.get("reject_line"),
                              "context": r.get("reject_context")})
@@ -33,9 +35,9 @@ def run_b2(ctx: core.Ctx, make_jobs, mons, hidden=("clock",), log_visible=False,
         r0 = results[0]
         ctx.sample({"spec": jobs[0][0], "seed": jobs[0][1], "preempt": jobs[0][2], "status": r0["status"], "virtual_s": r0["virtual_s"], "events": r0["events"],
                     "acceptor": r0.get("accept")})
-    ctx.cov["traces_validated_against_impl"] = sum(1 for r in results if r.get("accept", "").startswith("ACCEPT"))
-    ctx.cov["traces_rejected_by_acceptor"] = len(rejected)
-    ctx.cov["b2_schedules"] = len(results)
+    ctx.cov["traces_validated_against_impl"] = ctx.cov.get("traces_validated_against_impl", 0) + sum(1 for r in results if r.get("accept", "").startswith("ACCEPT"))
+    ctx.cov["traces_rejected_by_acceptor"] = ctx.cov.get("traces_rejected_by_acceptor", 0) + len(rejected)
+    ctx.cov["b2_schedules"] = ctx.cov.get("b2_schedules", 0) + len(results)
     if rejected and not ctx.violations:
         ctx.correspondence_broken(f"L4 model trace inclusion ({label})", {"count": len(rejected), "first": rejected[0]})
     ctx.assumptions += ["DetSched shims implement the documented semantics of threading.Lock/Event/Thread.join, queue.Queue, time.sleep; single attribute reads/writes are atomic (GIL)",
